@@ -10,66 +10,98 @@ open BM
 /-- Dirac table: for n ≥ 1, each of the ⌊log₂(n+1)⌋ low bits of n+1 is preceded by a 0 ("follow" bit),
     terminated by a 1; 0 is the single bit 1. -/
 theorem uie_length (n : Nat) : (uieEncodeNat n).length = 2 * Nat.log2 (n + 1) + 1 := by
-  sorry
+  exact uie_length' n
 
 theorem readUIE_encode (pre post : Bits) (n : Nat) :
     readUIE (pre ++ uieEncodeNat n ++ post) pre.length
       = .ok (n, pre.length + (uieEncodeNat n).length) := by
-  sorry
+  rw [readUIE_ok_iff]
+  exact ⟨post, by rw [List.append_assoc, List.drop_left' rfl], rfl⟩
 
 theorem readSIE_encode (pre post : Bits) (i : Int) :
     readSIE (pre ++ sieEncode i ++ post) pre.length
       = .ok (i, pre.length + (sieEncode i).length) := by
-  sorry
+  rw [readSIE_ok_iff]
+  exact ⟨post, by rw [List.append_assoc, List.drop_left' rfl], rfl⟩
 
 theorem readUIE_ok_bounds (b : Bits) (p v p' : Nat) (h : readUIE b p = .ok (v, p')) :
     p < p' ∧ p' ≤ b.length := by
-  sorry
+  obtain ⟨rest, h1, h2⟩ := (readUIE_ok_iff _ _ _ _).1 h
+  have hl := congrArg List.length h1
+  have hpos := uie_length_pos v
+  simp only [List.length_drop, List.length_append] at hl
+  omega
 
 theorem readSIE_ok_bounds (b : Bits) (p : Nat) (v : Int) (p' : Nat) (h : readSIE b p = .ok (v, p')) :
     p < p' ∧ p' ≤ b.length := by
-  sorry
+  obtain ⟨rest, h1, h2⟩ := (readSIE_ok_iff _ _ _ _).1 h
+  have hl := congrArg List.length h1
+  have hpos := sie_length_pos v
+  simp only [List.length_drop, List.length_append] at hl
+  omega
 
 theorem readUIE_err (b : Bits) (p : Nat) (e : Err) (h : readUIE b p = .error e) : e = .read := by
-  sorry
+  exact readUIE_error b p e h
 
 theorem readSIE_err (b : Bits) (p : Nat) (e : Err) (h : readSIE b p = .error e) : e = .read := by
-  sorry
+  exact readSIE_error b p e h
 
 theorem truncated_uie (pre : Bits) (n q : Nat) (hq : q < (uieEncodeNat n).length) :
     readUIE (pre ++ (uieEncodeNat n).take q) pre.length = .error .read := by
-  sorry
+  exact readUIE_trunc pre n q hq
 
 theorem truncated_sie (pre : Bits) (i : Int) (q : Nat) (hq : q < (sieEncode i).length) :
     readSIE (pre ++ (sieEncode i).take q) pre.length = .error .read := by
-  sorry
+  exact readSIE_trunc pre i q hq
 
 theorem getUIE_exact (b : Bits) (n : Nat) : getUIE b = .ok n ↔ b = uieEncodeNat n := by
-  sorry
+  exact getUIE_iff b n
 
 theorem getSIE_exact (b : Bits) (i : Int) : getSIE b = .ok i ↔ b = sieEncode i := by
-  sorry
+  exact getSIE_iff b i
 
 theorem uie_negative (i : Int) (h : i < 0) : uieEncode i = .error .value := by
-  sorry
+  simp [uieEncode, h]
 
 theorem streamRead_readUIE (b : Bits) (pos : Nat) (h : pos ≤ b.length) :
     streamRead readUIE b pos = readUIE b pos := by
-  sorry
+  have _ := h
+  exact streamRead_readUIE' b pos
 
 theorem streamRead_readSIE (b : Bits) (pos : Nat) (h : pos ≤ b.length) :
     streamRead readSIE b pos = readSIE b pos := by
-  sorry
+  have _ := h
+  exact streamRead_readSIE' b pos
 
 theorem stream_roundtrip_uie (pre post : Bits) (ns : List Nat) :
     decodeAll readUIE ns.length (pre ++ ns.flatMap uieEncodeNat ++ post) pre.length
       = .ok (ns, pre.length + (ns.flatMap uieEncodeNat).length) := by
-  sorry
+  induction ns generalizing pre with
+  | nil => simp [decodeAll]
+  | cons n ns ih =>
+    simp only [List.length_cons, List.flatMap_cons, decodeAll]
+    have h1 := readUIE_encode pre (ns.flatMap uieEncodeNat ++ post) n
+    have h2 := ih (pre ++ uieEncodeNat n)
+    simp only [List.length_append, List.append_assoc] at h1 h2 ⊢
+    rw [h1]
+    simp only
+    rw [h2]
+    simp only [Nat.add_assoc]
 
 theorem stream_roundtrip_sie (pre post : Bits) (is : List Int) :
     decodeAll readSIE is.length (pre ++ is.flatMap sieEncode ++ post) pre.length
       = .ok (is, pre.length + (is.flatMap sieEncode).length) := by
-  sorry
+  induction is generalizing pre with
+  | nil => simp [decodeAll]
+  | cons n ns ih =>
+    simp only [List.length_cons, List.flatMap_cons, decodeAll]
+    have h1 := readSIE_encode pre (ns.flatMap sieEncode ++ post) n
+    have h2 := ih (pre ++ sieEncode n)
+    simp only [List.length_append, List.append_assoc] at h1 h2 ⊢
+    rw [h1]
+    simp only
+    rw [h2]
+    simp only [Nat.add_assoc]
 
 /-! ### non-vacuity -/
 example : uieEncodeNat 4 = [false, false, false, true, true] := by decide
